@@ -155,6 +155,10 @@ fn pos(v: &[String], x: &str) -> Option<usize> {
 /// params: [k versions, symbolic identifiers of new elements (0/1)]. C12
 pub fn maintenance() {
     let k = sym::param(0) as usize;
+    if sym::param(2) != 0 {
+        sym::set_env("MELDA_ARRAYDESCRIPTORS_CACHE_CAP", 1);
+        sym::set_env("MELDA_DATA_CACHE_CAP", 1);
+    }
     let c = concurrent(k, sym::param(1) != 0);
     let (a, b) = (c.a, c.b);
     let d0 = a.m.read(None).expect("read");
